@@ -143,13 +143,14 @@ def quiet():
     os.close(dn)
 
 
-def run_history(mods, calls, neutral_cwd, fault=None):
+def run_history(mods, calls, neutral_cwd, fault=None, cap=None):
     """Forked child: execute the calls in order. Returns outcomes, opened files, socket attempts."""
     utils, jsonschema = mods
     def job():
         quiet()
         os.chdir(neutral_cwd)
         SEAMS.opened = []; SEAMS.sockets = []; SEAMS.json_opens = 0; SEAMS.fault = fault; SEAMS.faults_fired = 0
+        common.cap_size_knobs(cap)
         outs = [execute(utils, jsonschema, c) for c in calls]
         return outs, sorted(set(SEAMS.opened)), list(SEAMS.sockets), SEAMS.faults_fired
     return common.fork_call(job, wall_cap=120.0, what='history')
@@ -230,8 +231,48 @@ def likely_negative(call):
 
 
 def gen_history(rng, docs, table=None):
-    """-> (kind, calls)"""
+    """-> (kind, calls); kind may carry a knob: 'long-random|cap=3' caps every bounded cache at 3 entries"""
+    kind, calls = _gen_history(rng, docs)
+    if rng.random() < 0.35:
+        kind += '|cap=%d' % rng.choice([2, 3, 5])
+    return kind, calls
+
+
+def cap_of(kind):
+    return int(kind.split('|cap=')[1]) if '|cap=' in kind else None
+
+
+def sweep(rng, docs):
+    """One document against (nearly) every schema, or one schema under every validator and spelling -
+    the way a user checks a new file - with a few unrelated calls in between."""
+    calls = []
+    if rng.random() < 0.6:
+        for d in rng.sample(docs, rng.choice([1, 1, 2])):
+            ss = list(SCHEMAS[:7]) + rng.sample(SCHEMAS[7:], rng.randint(0, 3))
+            rng.shuffle(ss)
+            meta = ('va', d, 'rel', 'json/metaschema.json', 'rel', rng.random() < 0.15)
+            for s_ in ss:
+                if s_ == 'json/metaschema.json' and rng.random() < 0.7:
+                    continue
+                calls.append(('va', d, 'rel', s_, 'rel', rng.random() < 0.15))
+                if rng.random() < 0.15:
+                    calls.append(rand_call(rng, docs))
+            calls.append(meta)
+    else:
+        s_ = rng.choice(SCHEMAS)
+        combos = [(sp, v) for sp in ('rel', 'abs', 'bare', 'bs') for v in VALIDATORS]
+        rng.shuffle(combos)
+        for sp, v in combos[:rng.randint(6, 20)]:
+            calls.append(('sv', s_, sp, v, rng.random() < 0.3))
+            if rng.random() < 0.15:
+                calls.append(rand_call(rng, docs))
+    return calls
+
+
+def _gen_history(rng, docs):
     x = rng.random()
+    if x >= 0.6 and x < 0.72:
+        return 'sweep', sweep(rng, docs)
     if x < 0.6:
         n = rng.choice([1, 2, 2, 3, 3, 3])
         calls = [rand_call(rng, docs)]
@@ -256,14 +297,15 @@ def gen_history(rng, docs, table=None):
         which = rng.choice(['sv', 'va'])
         fill = []
         seen = set()
-        while len(fill) < rng.randint(20, 26):
+        target = rng.choice([rng.randint(20, 26), rng.randint(20, 26), rng.randint(40, 46)])
+        while len(fill) < target:
             c = rand_call(rng, docs)
             if c[0] != which or cache_key(c) in seen:
                 continue
             c = c[:-1] + (False,)
             seen.add(cache_key(c)); fill.append(c)
         probes = [flip(rng, rng.choice(fill)) if rng.random() < 0.8 else rand_call(rng, docs)
-                  for _ in range(n - len(fill))]
+                  for _ in range(max(4, n - len(fill)))]
         return 'long-fill-then-probe', fill + probes
     # thrash: alternate a few keys around the limit
     which = rng.choice(['sv', 'va'])
@@ -410,13 +452,13 @@ def check_history(table, calls, outs):
     return None
 
 
-def minimise(mods, table, calls, cls, cwd):
+def minimise(mods, table, calls, cls, cwd, cap=None):
     def fails(sub):
-        outs, _, _, _ = run_history(mods, sub, cwd)
+        outs, _, _, _ = run_history(mods, sub, cwd, cap=cap)
         v = check_history(table, sub, outs)
         return v is not None and v[0] == cls
     small = common.ddmin(list(calls), fails, max_tests=80)
-    outs, _, _, _ = run_history(mods, small, cwd)
+    outs, _, _, _ = run_history(mods, small, cwd, cap=cap)
     return small, check_history(table, small, outs), outs
 
 
@@ -486,8 +528,11 @@ def _main(tier_, master, cfg, docs, A, cwd, t0):
     table, files, socks = fresh_table(A, cwd)
     hist = {}
     need = set()
-    corpus = [(os.path.basename(pth), [tuple(c) for c in common.load_replay(pth)['trace']]) for pth in common.corpus_files(PROP)]
-    for _, calls in corpus:
+    corpus = []
+    for pth in common.corpus_files(PROP):
+        rp_ = common.load_replay(pth)
+        corpus.append((os.path.basename(pth), [tuple(c) for c in rp_['trace']], (rp_.get('scenario') or {}).get('bounded_caches_capped_at')))
+    for _, calls, _cap in corpus:
         need |= set(c for c in calls if c not in table)
     for i in range(n):
         kind, calls = history_for(master, i, docs, table)
@@ -514,9 +559,11 @@ def _main(tier_, master, cfg, docs, A, cwd, t0):
         rd = [0]
         for i in range(wi, n, nw):
             kind, calls = history_for(master, i, docs, table)
-            outs, opened, sk, _ = run_history(mods, calls, cwd)
+            outs, opened, sk, _ = run_history(mods, calls, cwd, cap=cap_of(kind))
             rd[0] = (rd[0] + common.run_digest_term(i, [calls, common.canon_outcome(outs)])) & ((1 << 64) - 1)
-            st.inc('runs'); st.inc('calls', len(calls)); st.inc('kind:' + kind)
+            st.inc('runs'); st.inc('calls', len(calls)); st.inc('kind:' + kind.split('|')[0])
+            if cap_of(kind):
+                st.inc('fault:bounded-caches-capped-at-%d' % cap_of(kind))
             allfiles |= set(opened); allsocks += sk
             fl = flags(calls, table)
             for x in fl:
@@ -529,8 +576,8 @@ def _main(tier_, master, cfg, docs, A, cwd, t0):
             if v is not None:
                 st.inc('violating_runs')
                 if v[0] not in viols and len(viols) < 3:
-                    small, mv, mouts = minimise(mods, table, calls, v[0], cwd)
-                    viols[v[0]] = {'class': v[0], 'detail': (mv or v)[1], 'trace': [list(c) for c in small],
+                    small, mv, mouts = minimise(mods, table, calls, v[0], cwd, cap_of(kind))
+                    viols[v[0]] = {'class': v[0], 'detail': (mv or v)[1], 'trace': [list(c) for c in small], 'cap': cap_of(kind),
                                    'outcomes': mouts, 'run_index': i, 'minimised_from': len(calls)}
             elif len(samples) < 2 and len(calls) <= 3 and 'same-key-other-expectation' in fl:
                 samples.append({'run_index': i, 'calls': [list(c) for c in calls], 'outcomes': outs})
@@ -568,7 +615,7 @@ def _main(tier_, master, cfg, docs, A, cwd, t0):
         mods0 = None
         def cw(wi, nw):
             mods = prepare()
-            return [(name, calls, run_history(mods, calls, cwd)[0]) for name, calls in corpus[wi::nw]]
+            return [(name, calls, run_history(mods, calls, cwd, cap=cap_)[0]) for name, calls, cap_ in corpus[wi::nw]]
         for part in common.run_pool(cw, min(4, len(corpus)), wall_cap=600):
             for name, calls, outs in part:
                 cst['replayed'] += 1
@@ -593,6 +640,7 @@ def _main(tier_, master, cfg, docs, A, cwd, t0):
         path = common.write_replay(PROP, name, {
             'engine': 'schemasim', 'master_seed': master, 'run_index': v['run_index'], 'athlib_tree_digest': digest,
             'trace': v['trace'], 'violation': {'class': cls, 'detail': v['detail']}, 'outcomes': v['outcomes'],
+            'scenario': {'bounded_caches_capped_at': v.get('cap')},
             'event_digest': common.digest_of(v['outcomes']), 'minimised_from': {'calls': v['minimised_from']}})
         vlines.append('VIOLATION property=%s replay=%s' % (PROP, path))
     seenabs = set()
@@ -629,6 +677,7 @@ def _main(tier_, master, cfg, docs, A, cwd, t0):
         'history_kinds': {k[5:]: v for k, v in st.items() if k.startswith('kind:')},
         'probes': {k[6:]: v for k, v in st.items() if k.startswith('probe:')},
         'faults_fired': {'network_partitioned_socket_attempts': len(socks),
+                         'knob_randomisation': {k[6:]: v for k, v in st.items() if k.startswith('fault:')},
                          'diagnostic_io_faults(not gating)': {k: v for k, v in fst.items()}},
         'files_opened_distinct_json': len([f for f in files if f.endswith('.json')]),
         'absolute_clause_failures': sorted(seenabs),
@@ -675,7 +724,7 @@ def det_fingerprints(prop, master, idxs, k=None):
         out = {}
         for i in idxs:
             kind, calls = history_for(master, i, docs, {})
-            outs, opened, sk, _ = run_history(mods, calls, cwd)
+            outs, opened, sk, _ = run_history(mods, calls, cwd, cap=cap_of(kind))
             out[str(i)] = common.digest_of([kind, calls, common.canon_outcome(outs), [os.path.relpath(f, common.REPO) for f in opened if f.endswith('.json')]])
         return out
     finally:
@@ -722,7 +771,8 @@ def replay(path):
                 return 1
             return 0
         mods = prepare()
-        outs, opened, sk, _ = run_history(mods, calls, cwd)
+        cap = (rp.get('scenario') or {}).get('bounded_caches_capped_at')
+        outs, opened, sk, _ = run_history(mods, calls, cwd, cap=cap)
     finally:
         shutil.rmtree(cwd, ignore_errors=True)
     v = check_history(table, calls, outs)
